@@ -128,6 +128,15 @@ def entries():
     add("UMNNCoupling", "transform", lambda: TR.UMNNCouplingTransform(mask4, resnet(), integrand_net_layers=[8, 8], cond_size=3, nb_steps=15), _rn(4), flags={"inv", "umnn"})
     # ---- autoregressive
     add("MaskedAffineAR", "transform", lambda: TR.MaskedAffineAutoregressiveTransform(3, 8, num_blocks=1), _rn(3), flags={"inv"})
+    def wide_maf():
+        # 96 features, every scale around 0.27 (a contracting layer): the determinant, 1e-55, is far below the
+        # single-precision range, its logarithm is an ordinary number
+        m = TR.MaskedAffineAutoregressiveTransform(96, 16, num_blocks=1)
+        with torch.no_grad():
+            m.autoregressive_net.final_layer.bias[0::2] = -3.0
+        return m
+
+    add("MaskedAffineAR/96-features-contracting", "transform", wide_maf, _rn(96), flags={"inv", "large", "illconditioned"})
     add("MaskedAffineAR/ctx+random", "transform", lambda: TR.MaskedAffineAutoregressiveTransform(3, 8, context_features=2, num_blocks=2, use_residual_blocks=False, random_mask=True), _rn(3), _rn(2), flags={"inv", "ctor_random"})
     add("MaskedAffineAR/dropout", "transform", lambda: TR.MaskedAffineAutoregressiveTransform(3, 8, num_blocks=1, dropout_probability=0.3), _rn(3), flags={"inv", "dropout"})
     add("AffineCoupling/dropout", "transform", lambda: TR.AffineCouplingTransform(mask4, resnet(dropout=0.3)), _rn(4), flags={"inv", "dropout"})
